@@ -141,8 +141,10 @@ void h_query(void) {
         }
     }
     V_ASSERT(g_live_blocks == live0 - (long)exp, "C19: QueryResp buffer released, reported observations freed");
-    V_ASSERT(ST->mapper_known == 1 && mac6_eq(ST->mapper_real.a, in.frame + F_RSRC), "C05: a Query names its sender as mapper");
-    if (!in.st.known) V_ASSERT(mac6_eq(ST->mapper_apparent.a, in.frame + F_ESRC), "C05: a Query that opens the session records its Ethernet source as apparent mapper");
+    /* C05's domain: commands come from the active mapper or while none is active; a stranger's Query is left unconstrained */
+    if (!in.st.known) V_ASSERT(ST->mapper_known == 1 && mac6_eq(ST->mapper_real.a, in.frame + F_RSRC) && mac6_eq(ST->mapper_apparent.a, in.frame + F_ESRC),
+                               "C05: a Query that opens the session makes its real source the mapper and its Ethernet source the apparent mapper");
+    else if (mac6_eq(in.frame + F_RSRC, in.st.mreal)) V_ASSERT(ST->mapper_known == 1 && mac6_eq(ST->mapper_real.a, in.st.mreal), "C05: a Query from the active mapper keeps it the mapper");
     V_ASSERT(ST->mapper_seq == be16(in.frame + F_SEQ), "C07: sequence number of the Query remembered");
     V_WITNESS("h_query end");
 }
